@@ -72,7 +72,7 @@ def gen_case(rng, ndim=None, inner=None, outer=None, steady=None, const_mat=None
         if kind in ("fix",):
             return np.array([[[dyadic(rng, 300.0, 900.0) for _ in range(nz)] for _ in range(nt)] for _ in range(ntime)]), None
         if kind == "flux":
-            return np.array([[[dyadic(rng, -2.0, 4.0) for _ in range(nz)] for _ in range(nt)] for _ in range(ntime)]), None
+            return np.array([[[dyadic(rng, -0.25, 0.5) for _ in range(nz)] for _ in range(nt)] for _ in range(ntime)]), None
         if kind == "conv":
             return np.array([[dyadic(rng, 300.0, 900.0) for _ in range(nz)] for _ in range(ntime)]), None
         if kind == "film":
@@ -87,7 +87,7 @@ def gen_case(rng, ndim=None, inner=None, outer=None, steady=None, const_mat=None
         mat_k = np.array([dyadic(rng, 5.0, 40.0)])
         mat_a = np.array([dyadic(rng, 1.0, 20.0)])
     else:
-        mat_T = np.array([0.0, 500.0, 1000.0, 2000.0])
+        mat_T = np.array([-20000.0, 500.0, 1000.0, 40000.0])
         mat_k = np.array([dyadic(rng, 5.0, 40.0) for _ in range(4)])
         mat_a = np.array([dyadic(rng, 1.0, 20.0) for _ in range(4)])
     film = dyadic(rng, 0.0, 8.0)
@@ -316,3 +316,86 @@ def real_view(case, T):
     if case.ndim == 2:
         return T[1:-1, 1:-1]
     return T[1:-1, 1:-1, 1:-1]
+
+
+# ---------------------------------------------------------------------------
+# shared stages
+# ---------------------------------------------------------------------------
+def matrix_correspondence(ctx, cases, label):
+    """model rows (Lean, Float) vs the linear system the real solve_step hands to its sparse
+    solver; returns list of (case, diffs)"""
+    drv = common.LeanDriver(["SrModel.Thermal"])
+    lines, kept = [], []
+    crashed = []
+    for c in cases:
+        try:
+            prob, tube, mat, fluid = problem(c, atol=1e-7)
+            T_n = initial_field(prob, c)
+            time, dt = float(c.times[1]), float(c.times[1] - c.times[0])
+            A, b, Tnew = capture_step(c, prob, T_n, time, dt)
+        except RuntimeError as e:
+            # a step that does not converge raises (C17's business); the system was still captured?
+            crashed.append((c, repr(e)))
+            continue
+        lines.append(request_line(c, prob, tube, mat, fluid, T_n, time, dt))
+        kept.append((c, A, b, T_n))
+    answers = drv.ask(lines)
+    bad = []
+    for (c, A, b, T_n), ans in zip(kept, answers):
+        Am, bm = parse_answer(ans, A.shape[0])
+        diffs, nnz = compare_system(A, b, Am, bm, float(np.max(np.abs(T_n))))
+        key = ("%dD" % c.ndim, c.inner, c.outer, c.steady, c.nr, c.nt, c.nz, c.mat_T is None)
+        ctx.case(key, nontrivial=(c.inner != "ins" or c.outer != "ins" or c.T0field is not None),
+                 tag="matrix/%dD/%s-%s/%s" % (c.ndim, c.inner, c.outer, "steady" if c.steady else "transient"),
+                 sample={"suite": label, "ndim": c.ndim, "grid": [c.nr, c.nt, c.nz], "inner": c.inner,
+                         "outer": c.outer, "steady": c.steady, "matrix_nnz": nnz, "agree": not diffs})
+        if diffs:
+            bad.append((c, diffs))
+    ctx.obligation("correspondence (%s): assembled system of real solve_step == SrModel.Thermal rows" % label,
+                   not bad, "%d of %d differ; first: %s" % (len(bad), len(kept), bad[0][1][:2] if bad else ""))
+    ctx.extra["traces_validated_against_impl"] = ctx.extra.get("traces_validated_against_impl", 0) + len(kept)
+    if crashed:
+        ctx.notes.append("%d generated steps raised in the real solver (not compared): %s" % (len(crashed), crashed[0][1]))
+    return bad
+
+
+def run_history(case, substep=1, atol=1e-8, rtol=1e-12, miter=30):
+    """step the real problem through its whole time grid, one solve_step per sub-step;
+    returns list of (T_before, T_after, time, dt, prob-snapshot-of-coefficients)"""
+    prob, tube, mat, fluid = problem(case, atol=atol, rtol=rtol, miter=miter)
+    T = initial_field(prob, case)
+    out = []
+    times = np.array(case.times)
+    for n in range(len(times) - 1):
+        dtfull = times[n + 1] - times[n]
+        dti = dtfull / substep
+        for s in range(1, substep + 1):
+            t = times[n] + dti * s
+            Tn = np.array(T, copy=True)
+            T = prob.solve_step(np.array(T, copy=True), t, dti)
+            out.append(dict(Tn=Tn, T=np.array(T, copy=True), time=t, dt=dti,
+                            c=np.array(prob.c).reshape(prob.fdim), k=np.array(prob.k).reshape(prob.fdim)))
+    return prob, tube, mat, fluid, out
+
+
+def ghost3(case, arr, prob):
+    return np.array(arr).reshape(prob.fdim)
+
+
+def energy_terms(case, prob, step):
+    """independent numpy evaluation of stored-heat change and radial wall-face fluxes of a step"""
+    T = ghost3(case, step["T"], prob)
+    Tn = ghost3(case, step["Tn"], prob)
+    c = step["c"]
+    rr = np.linspace(case.r - case.t - prob.dr, case.r + prob.dr, case.nr + 2)
+    I = slice(1, case.nr + 1)
+    J = slice(1, case.nt + 1) if case.ndim >= 2 else slice(0, 1)
+    Kk = slice(1, case.nz + 1) if case.ndim >= 3 else slice(0, 1)
+    dE = float(np.sum(rr[I, None, None] * (T[I, J, Kk] - Tn[I, J, Kk])))
+    rh0 = 0.5 * (rr[0] + rr[1])
+    rhN = 0.5 * (rr[case.nr] + rr[case.nr + 1])
+    c0 = 0.5 * (c[0, J, Kk] + c[1, J, Kk])
+    cN = 0.5 * (c[case.nr, J, Kk] + c[case.nr + 1, J, Kk])
+    inner_face = rh0 * c0 * (T[1, J, Kk] - T[0, J, Kk])
+    outer_face = rhN * cN * (T[case.nr + 1, J, Kk] - T[case.nr, J, Kk])
+    return dE, inner_face, outer_face, rr, (I, J, Kk)
